@@ -3064,7 +3064,7 @@ def register_dispatch(reg):
         calls, coerced = [], PObj("Coerced", tag="coercer(val)")
         self = env.vars["self"]
         loc = PObj("Location", tag="saved location")
-        self.fields.update(_dist=key, _errorMessage="bad type", _loc=loc, _valueType=vec_cls, _coercer=None)
+        self.fields.update(_dist=key, _errorMessage="bad type", _loc=loc, _valueType=vec_cls, _targetType=vec_cls, _coercer=None)
         if mode in (0, 1):
             self.fields["_checkType"] = vec_cls if mode == 0 else ori_cls
         else:
